@@ -34,6 +34,8 @@ RULE = (
 COMPONENTS = {
     "real": ["binpacking2d.experiment.rls/fea/base_setup, all 7 objectives, both "
              "encodings, PackingSpace", "tsp EA/FEA + TourLength",
+             "examples/tsp_rls.py wiring (RLS + TourLength) on symmetric and "
+             "asymmetric TSPLIB instances",
              "examples/ttp_example_experiment_rls_rs.py, "
              "examples/ttp_example_experiment_mo.py (Prioritize(Errors, "
              "GamePlanLength), RLS and NSGA-2, archive), "
@@ -69,14 +71,14 @@ PROBES = ["job_first_in_interpreter", "job_after_same_execution",
           "second_round_finds_files", "restart_completed_rest",
           "torn_or_empty_log_rejected", "domain:bp", "domain:tsp",
           "domain:ttp", "domain:qap", "domain:instgen", "domain:dc",
-          "domain:dcs", "domain:ttpmo",
-          "evaluate_from_logs"]
+          "domain:dcs", "domain:ttpmo", "domain:atsp",
+          "evaluate_from_logs", "surrogate_runs_without_log"]
 HARD_CAP_S = 900.0
 CHUNK = 1
 SHRINK_RUNS = 25
 SHRINK_S = 420.0
 BOOT_TIMEOUT = 420.0
-REF_FORMAT = 3     # bump when the canonical record of a reference run changes
+REF_FORMAT = 5     # bump when the canonical record of a reference run changes
 DET_SAMPLE = {"quick": 6, "thorough": 40}   # a scenario is several interpreters
 SECOND_POOL_WORKERS = 6
 
@@ -87,16 +89,16 @@ def plan(tier: str) -> list:
                  "domains": ["bp", "bp", "tsp", "ttp", "qap"]},
                 {"name": "fault", "n": 44, "faults": True,
                  "domains": ["bp", "bp", "bp", "bp", "tsp", "tsp", "ttp",
-                             "ttp", "qap", "qap", "ttpmo"]},
-                {"name": "heavy", "n": 4, "faults": True,
-                 "domains": ["instgen", "dc", "instgen", "dc", "dcs"]}]
+                             "ttp", "qap", "qap", "ttpmo", "atsp"]},
+                {"name": "heavy", "n": 8, "faults": True,
+                 "domains": ["instgen", "dc", "instgen", "instgen", "dcs"]}]
     return [{"name": "nofault", "n": 800, "faults": False,
              "domains": ["bp", "bp", "tsp", "ttp", "qap"]},
             {"name": "fault", "n": 2800, "faults": True,
              "domains": ["bp", "bp", "bp", "bp", "tsp", "tsp", "ttp", "ttp",
-                         "qap", "qap", "ttpmo"]},
-            {"name": "heavy", "n": 120, "faults": True,
-             "domains": ["instgen", "dc", "instgen", "dc", "dcs"]}]
+                         "qap", "qap", "ttpmo", "atsp"]},
+            {"name": "heavy", "n": 200, "faults": True,
+             "domains": ["instgen", "dc", "instgen", "instgen", "dcs"]}]
 
 
 def warmup() -> None:
@@ -118,6 +120,8 @@ def _gen_setups(rng: random.Random, dom: str) -> list:
         return out
     if dom == "tsp":
         return rng.choice([["tsp:ea"], ["tsp:fea"], ["tsp:ea", "tsp:fea"]])
+    if dom == "atsp":
+        return ["atsp:rls"]
     if dom == "ttp":
         return rng.choice([["ttp:rls"], ["ttp:rs"], ["ttp:rls", "ttp:rs"]])
     if dom == "ttpmo":
@@ -137,15 +141,33 @@ def generate(rng: random.Random, batch: dict) -> dict:
     heavy = dom in ("instgen", "dc", "dcs")
     setups = _gen_setups(rng, dom)
     pool = jobs.instances_for(dom)
-    instances = rng.sample(pool, 1 if heavy else rng.choice([1, 1, 2]))
-    if dom in ("dc", "dcs"):
+    if dom == "instgen":
+        instances = rng.sample(pool, rng.choice([1, 2]))
+    else:
+        instances = rng.sample(pool, 1 if heavy else rng.choice([1, 1, 2]))
+    if dom == "dcs":
+        budget = rng.choice([4, 5, 6])   # >= warm-up + a few model rounds
+    elif dom == "dc":
         budget = rng.choice([2, 3, 4])
     elif dom == "instgen":
         budget = rng.choice([6, 10, 14])
     else:
         budget = rng.choice([20, 40, 100, 200, 400])
     faults = batch.get("faults", False)
-    max_runs = 1 if heavy else rng.choice([1, 2, 2, 3])
+    if dom == "dcs":
+        boots = []
+        seeds = [rng.getrandbits(40)]
+        for b in range(1):
+            boots.append({"hashseed": str(rng.randint(0, 4000)),
+                          "clock": {"mode": "fixed", "tick": 1000},
+                          "shuffle_seed": rng.getrandbits(30), "crash": None,
+                          "actions": [{"a": "run_nolog", "seeds": seeds}]})
+        return {"domain": dom, "setups": setups, "instances": instances,
+                "budget": budget, "boots": boots}
+    if dom == "instgen":
+        max_runs = rng.choice([2, 3, 4])
+    else:
+        max_runs = 1 if heavy else rng.choice([1, 2, 2, 3])
     n_boots = 1 if heavy and not faults else rng.choice([1, 2, 2, 3])
     boots = []
     claimed = False
@@ -227,7 +249,8 @@ def directed(tier: str) -> list:
             ("tsp", ["tsp:ea", "tsp:fea"], ["tsp:burma14", "tsp:gr17"], 100),
             ("ttp", ["ttp:rls", "ttp:rs"], ["ttp:circ4", "ttp:nl6"], 80),
             ("qap", ["qap:rls", "qap:rs"], ["qap:nug12"], 80),
-            ("ttpmo", ["ttpmo:rls", "ttpmo:nsga2"], ["ttpmo:circ6"], 60)):
+            ("ttpmo", ["ttpmo:rls", "ttpmo:nsga2"], ["ttpmo:circ6"], 60),
+            ("atsp", ["atsp:rls"], ["atsp:br17", "atsp:p43"], 60)):
         docs.append({"domain": dom, "setups": setups, "instances": insts,
                      "budget": budget, "boots": [
             {"hashseed": "21", "clock": {"mode": "fixed", "tick": 1000},
@@ -239,10 +262,12 @@ def directed(tier: str) -> list:
              "actions": [{"a": "run", "n_runs": [1, 2], "warmup": False,
                           "pre_warmup": False}]}]})
     docs.append({"domain": "instgen", "setups": ["instgen:cmaes"],
-                 "instances": ["instgen:beng01:0.25"], "budget": 8, "boots": [
+                 "instances": ["instgen:beng01:0.25",
+                               "instgen:cl01_020_01:0.125"],
+                 "budget": 12, "boots": [
         {"hashseed": "31", "clock": {"mode": "fixed", "tick": 1000},
          "shuffle_seed": 6, "crash": None,
-         "actions": [{"a": "run", "n_runs": [1], "warmup": False,
+         "actions": [{"a": "run", "n_runs": [4], "warmup": False,
                       "pre_warmup": False}]}]})
     docs.append({"domain": "dcs", "setups": ["dcs:raw"],
                  "instances": ["dcs:stuart_landau"], "budget": 4,
@@ -251,6 +276,12 @@ def directed(tier: str) -> list:
          "shuffle_seed": 8, "crash": None,
          "actions": [{"a": "run", "n_runs": [1], "warmup": False,
                       "pre_warmup": False}]}]})
+    docs.append({"domain": "dcs", "setups": ["dcs:sur:2:8:6"],
+                 "instances": ["dcs:stuart_landau"], "budget": 5,
+                 "boots": [
+        {"hashseed": "52", "clock": {"mode": "fixed", "tick": 1000},
+         "shuffle_seed": 9, "crash": None,
+         "actions": [{"a": "run_nolog", "seeds": [4711]}]}]})
     docs.append({"domain": "dc", "setups": ["dc:cmaes"],
                  "instances": ["dc:stuart_landau:linear"], "budget": 3,
                  "boots": [
@@ -311,6 +342,28 @@ def boot_main(argv: list) -> int:
                 perform_pre_warmup=bool(action["pre_warmup"]),
                 on_completion=on_completion)
             _emit(ev, {"e": "run_experiment_done"})
+        elif a == "run_nolog":
+            # the surrogate builders cannot run with a log file in this
+            # environment (known finding); without one they can
+            for sid in setups:
+                for iid in instances:
+                    for seed in action["seeds"]:
+                        exe = jobs.make_setup(sid, budget)(
+                            jobs.make_instance(iid))
+                        exe.set_log_all_fes(False)
+                        exe.set_rand_seed(int(seed))
+                        with exe.execute() as process:
+                            sp = process._solution_space
+                            y = sp.create()
+                            process.get_copy_of_best_y(y)
+                            _emit(ev, {
+                                "e": "nolog_run", "setup": sid, "inst": iid,
+                                "seed": int(seed),
+                                "best_f": repr(process.get_best_f()),
+                                "fes": int(process.get_consumed_fes()),
+                                "lifes": int(
+                                    process.get_last_improvement_fe()),
+                                "y": sp.to_str(y)})
         elif a == "peer_claims":
             for rel in action["files"]:
                 p = os.path.join(base, rel)
@@ -425,6 +478,18 @@ def ref_main(argv: list) -> int:
             out["log_text"] = f.read()
         os.remove(log)
         out["record"] = jobs.record_from_log_text(out["log_text"])
+    elif spec["mode"] == "run_nolog":
+        exe.set_log_all_fes(False)
+        exe.set_rand_seed(int(spec["seed"]))
+        with exe.execute() as process:
+            sp = process._solution_space
+            y = sp.create()
+            process.get_copy_of_best_y(y)
+            out["inproc"] = {"best_f": repr(process.get_best_f()),
+                             "fes": int(process.get_consumed_fes()),
+                             "lifes": int(
+                                 process.get_last_improvement_fe()),
+                             "y": sp.to_str(y)}
     else:
         sp = exe._solution_space
         y = sp.from_str(spec["y"])
@@ -497,7 +562,7 @@ def _inst_data(inst_id: str) -> dict:
         d.update({"W": int(inst.bin_width), "H": int(inst.bin_height),
                   "items": [[int(v) for v in r] for r in inst],
                   "lb": int(inst.lower_bound_bins)})
-    elif dom == "tsp":
+    elif dom in ("tsp", "atsp"):
         d["matrix"] = [[int(v) for v in r] for r in np.asarray(inst)]
     elif dom == "qap":
         d["flows"] = [[int(v) for v in r] for r in inst.flows]
@@ -565,7 +630,7 @@ def _truth(dom: str, setup_id: str, inst_id: str, rec: dict, budget: int,
                     f"{where}: logged bestF={rec['best_f']} but {oname} of "
                     f"the logged packing is {want}", domain=dom)
                 return False
-        elif dom == "tsp":
+        elif dom in ("tsp", "atsp"):
             perm = [int(v) for v in rec["y"].split(";")]
             if not torc.is_permutation(perm, len(d["matrix"])):
                 core.violation(res, "final-solution-infeasible:permutation",
@@ -868,6 +933,12 @@ def _run_scenario(doc, dom, budget, root, base, res, seeds_fn) -> None:
             for r in recs:
                 if r["e"] == "done":
                     res["sim_time"] += float(r["clock_advanced"])
+        elif rc == 124 and dom == "dcs":
+            # learned ANN system models can be legally stiff (slow, not
+            # non-terminating): undecided, never a violation
+            core.bump(res["probes"], "undecided:dcs_timeout")
+            res["events"].append(["boot", bi, "undecided-timeout"])
+            return
         elif rc == 124:
             core.violation(res, "run-did-not-terminate",
                            f"boot {bi} exceeded {BOOT_TIMEOUT}s; setups="
@@ -885,6 +956,56 @@ def _run_scenario(doc, dom, budget, root, base, res, seeds_fn) -> None:
             elif r["e"] == "peer_completed":
                 core.bump(res["faults"], "peer_completes")
                 claimed.pop(r["file"], None)
+
+    # ---------------------------------------------------------------- runs without log files
+    n_nolog = 0
+    for bi, r in events:
+        if r["e"] != "nolog_run":
+            continue
+        n_nolog += 1
+        res["ops"] += 1
+        where = (f"{r['setup']} on {r['inst']} seed {hex(r['seed'])} budget "
+                 f"{budget} (no log file)")
+        ref = _reference({"mode": "run_nolog", "setup": r["setup"],
+                          "inst": r["inst"], "seed": r["seed"],
+                          "budget": budget}, res)
+        if ref is None:
+            return
+        for field in ("best_f", "fes", "lifes", "y"):
+            if r[field] != ref["inproc"][field]:
+                core.violation(
+                    res, "run-differs-from-history-free-reference",
+                    f"{where}: field {field}: boot {bi} got "
+                    f"{str(r[field])[:200]!r}, a single fresh run gives "
+                    f"{str(ref['inproc'][field])[:200]!r}", field=field,
+                    domain=dom)
+                return
+        if int(r["fes"]) > budget:
+            core.violation(res, "budget-exceeded",
+                           f"{where}: {r['fes']} FEs")
+            return
+        d = _inst_data(r["inst"])
+        vec = [float(v) for v in r["y"].split(";")]
+        if len(vec) != d["dim"] or any(not -32.0 <= v <= 32.0 for v in vec):
+            core.violation(res, "final-solution-infeasible:box",
+                           f"{where}: controller vector {vec}")
+            return
+        ev = _reference({"mode": "eval", "setup": r["setup"],
+                         "inst": r["inst"], "budget": budget, "y": r["y"]},
+                        res)
+        if ev is None:
+            return
+        if float(ev["value"]) != float(r["best_f"]):
+            core.violation(
+                res, "logged-value-not-true",
+                f"{where}: best f={r['best_f']} but a fresh objective in a "
+                f"fresh interpreter gives {ev['value']}", domain=dom)
+            return
+        res["events"].append(["nolog", r["setup"], r["inst"], r["seed"],
+                              r["best_f"], r["fes"]])
+        res["states"].append(f"nolog|{r['setup']}|{r['inst']}|{bi}")
+    if n_nolog:
+        core.bump(res["probes"], "surrogate_runs_without_log", n_nolog)
 
     # ---------------------------------------------------------------- disk state
     for rel, job in maybe.items():
@@ -1107,7 +1228,8 @@ def _run_scenario(doc, dom, budget, root, base, res, seeds_fn) -> None:
                                f"directory under different listing orders "
                                f"differ")
                 return
-    n_run_events = sum(1 for _, r in events if r["e"] == "run")
+    n_run_events = sum(1 for _, r in events
+                       if r["e"] in ("run", "nolog_run"))
     res["nontrivial"] = n_run_events >= 2 or multi_boot_dirs
 
 
